@@ -279,9 +279,12 @@ def _publish_by_evaluation(repo, rep, mod):
                 return (tuple(values[k] for k in args),)
             return (values[key],)
         if what == 'groups':
-            return ((values[1], values[2]),)
+            d = args[0] if args else kwargs.get('default')
+            return (tuple(d if values[k] is None else values[k]
+                          for k in (1, 2)),)
         if what == 'groupdict':
-            return ({'n': values['n']},)
+            d = args[0] if args else kwargs.get('default')
+            return ({'n': d if values['n'] is None else values['n']},)
         if what == 'start':
             return (spans[key][0],)
         if what == 'end':
